@@ -57,7 +57,8 @@ impl SO3StateSpace {
     pub fn new(bounds_option: Option<(SO3State, f64)>) -> Result<Self, StateSpaceError> {
         let bounds = match bounds_option {
             Some((center_rotation, max_angle)) => {
-                if max_angle < 0.0 {
+                // `!(a >= 0)` also rejects NaN.
+                if !(max_angle >= 0.0) {
                     return Err(StateSpaceError::InvalidAngularDistance { lower: max_angle });
                 }
 
